@@ -37,6 +37,11 @@ Next ==
             /\ bad' = IF ~e.same \/ ~e.back_ok \/ ~IsPrefixOf(want, e.impl_prefix) THEN bad \cup {l} ELSE bad
             /\ drift' = drift
             /\ cnt' = [cnt EXCEPT !.big = @ + 1]
+       [] e.ev = "EncAbs" ->
+            \* a large value that is not a single atom: only the two verdicts are in the trace
+            /\ bad' = IF ~e.same \/ ~e.back_ok THEN bad \cup {l} ELSE bad
+            /\ UNCHANGED <<specerr, drift>>
+            /\ cnt' = [cnt EXCEPT !.enc = @ + 1]
        [] OTHER -> UNCHANGED <<bad, specerr, drift, cnt>>
 Spec == Init /\ [][Next]_vars
 Finished == l > Len(Rec) =>
